@@ -41,12 +41,14 @@ def all_games_plan(prop, ctx, thresholds=False):
         P.append(sweep.universe_shards(prop, "U-S2", j, thresholds=thr))
         P.append(sweep.universe_shards(prop, "U-S3", j))
         P.append(sweep.universe_shards(prop, "U-S4r", j, frac=8, seed=ctx.seed))
+        P.append(sweep.universe_shards(prop, "U-T4r", j, frac=16, seed=ctx.seed))
         P.append(sweep.family_shards(prop, "U-F", j, max_deg=5))
     else:
         P.append(sweep.universe_shards(prop, "U-S2d2", j, thresholds=thr))
         P.append(sweep.universe_shards(prop, "U-S2", j, frac=4, seed=ctx.seed))
         P.append(sweep.universe_shards(prop, "U-T3", j, frac=16, seed=ctx.seed, thresholds=thr[:1]))
         P.append(sweep.universe_shards(prop, "U-S3", j, frac=64, seed=ctx.seed))
+        P.append(sweep.universe_shards(prop, "U-T4r", j, frac=512, seed=ctx.seed))
         P.append(sweep.family_shards(prop, "U-F", j, max_deg=3))
     P.append(sweep.family_shards(prop, "U-D", j))
     P.append(sweep.family_shards(prop, "U-X", j))
